@@ -195,8 +195,9 @@ Definition send_ack (c : N) : prog unit :=
 
 (* bus_driver_handle_hello: bus_connections_check_limits (connections of this user), unique-name
    string (init, create_unique_client_name), bus_connection_complete (name copy, client policy, the
-   per-uid count - hash insert, then counted and never taken back -, loginfo string; then the
-   connection is active and nothing undoes that), set_sender on the Hello message, welcome message
+   per-uid count - hash insert -, loginfo string: if that fails the count is taken back (c7c9e6b),
+   so the model counts after the last allocation of the function; then the connection is active
+   and nothing undoes that), set_sender on the Hello message, welcome message
    (new_method_return, append_args, send_from_driver), bus_registry_ensure *)
 Definition hello (cn : conn) : prog unit :=
   let c := c_id cn in
@@ -204,8 +205,8 @@ Definition hello (cn : conn) : prog unit :=
   b0 <- get ;;
   if b_maxconns b0 <=? b_uidcount b0 then Fail ELimitsExceeded else
   allocs 2 ;;;
-  allocs 3 ;;; act AUidInc ;;;
-  alloc ;;; act (AComplete c) ;;;
+  allocs 3 ;;;
+  alloc ;;; act AUidInc ;;; act (AComplete c) ;;;
   alloc ;;;
   allocs 2 ;;; send_from_driver true c (MHelloReply c) ;;;
   b <- get ;;
